@@ -125,4 +125,12 @@ def fill (base : Bytes) (prev rootN rootG size : Nat) (objs : List Obj) (idPart 
 def newSize (prevSize : Nat) (objs : List Obj) : Nat :=
   prevSize + (objs.filter (fun o => prevSize ≤ o.num)).length
 
+/-- the first object numbers the PdfWriter page paths (`write_incremental_update`,
+    `write_incremental_with_page_replacement`, `write_incremental_with_overlay` in
+    pdf_writer/mod.rs) give their NEW catalog, /Pages and /Info: `allocate_object_id` counts up
+    from `next_object_id`, which `PdfWriter::with_config` initialises to 1 and none of the three
+    functions moves to the base file's /Size (contrast `IncrementalUpdate::allocate_id`:
+    `next_id = size`) -/
+def pageStepFirstIds (nextObjectId : Nat) : List Nat := [nextObjectId, nextObjectId + 1, nextObjectId + 2]
+
 end OxiVerif.C17
